@@ -46,6 +46,7 @@ func C10(c *core.Ctx) {
 	emit(c, a.Cycle())
 	emit(c, a.ParentPath())
 	emit(c, a.RefCacheScope())
+	ruleDedup(c)
 	// Engine A: the same oracles that decide the inline forms decide the referenced forms ("replacing a reference by an inline copy of its
 	// target does not change which documents are accepted"): value families at the $defs / definitions positions, a definition referenced twice
 	// (one shared type), and the cross-file forms.
